@@ -71,7 +71,7 @@ Tau(m, a, ctrls, s) == [d \in 0..(NV(m) - 1) |-> SumOn(m, a, ctrls, s, d)]
 
 Init ==
   /\ phase = "init" /\ out = <<>>
-  /\ \E n \in 1..MaxLinks : \E g \in RandomSubset(NCases, [1..GLen(n) -> GeneVals]) :
+  /\ \E n \in 1..MaxLinks : \E g \in GenomesK(NCases, GLen(n)) :
        /\ model = DecodeModel(g, n)
        /\ acts = DecodeActs(model, g, n * GW)
        /\ st = DecodeState(model, acts, g, n * GW + 1 + MaxActs * AG)
